@@ -153,6 +153,15 @@ CLAIMED["C18"] = (
     "first and the structure is compared per path. Pickling and drawing + rendering cannot carry proxies: they are explored over "
     "every discrete alternative on concrete leaves with the real lxml / protobuf bytes as observation.",
     "histories <= 2 operations; private caches are not observed; pickle / matplotlib on concrete leaves", "2/C18")
+CLAIMED["C19"] = (
+    "The real MPRenderer runs with symbolic integer time parameters (time_begin, time_end, initial time steps of the obstacles): "
+    "every comparison of its time-window guards is a z3-decided fork, so all windows within the bounds (before, at both ends of, "
+    "inside and after each horizon) are covered; on each path the patches collected between draw and render are compared with "
+    "the occupancies the model reports and the lanelet fill polygons with the (selected) lanelets. BaseParam propagation is "
+    "checked for every (group, parameter) pair of MPDrawParams with symbolic values after a symbolic earlier setting on a nested "
+    "group (z3 proves every declaring nested group holds the new value, also when old and new value coincide). Totality: every "
+    "combination of 6-7 draw flags per obligation x symbolic time_begin with real matplotlib (Agg).",
+    "window <= 4 steps, horizons <= 3 steps, concrete geometry; pixel output, video creation and traffic-sign images outside", "2/C19")
 NOT_YET = {}
 
 props = [json.loads(l) for l in open(os.path.join(ROOT, "properties.jsonl"))]
